@@ -5,6 +5,7 @@ import (
 	"io"
 	"os"
 	"syscall"
+	"time"
 )
 
 // R10: the disk seam. jiva opens every chain data file (head, snapshots, backing
@@ -31,6 +32,7 @@ const (
 	DiskEIO                // nothing transferred, EIO
 	DiskENOSPC             // writes only: nothing written, ENOSPC
 	DiskShort              // writes only: the first half (rounded down to 4 KiB, at least nothing) is written, then EIO
+	DiskSlow               // the call takes World.DiskSlowFor(call) of simulated time, then succeeds (a stalling disk)
 )
 
 // DiskCall describes one call for World.DiskFn.
@@ -63,7 +65,17 @@ func (f *faultDisk) verdict(write bool, off int64, n int) DiskVerdict {
 	if w == nil || w.DiskFn == nil {
 		return DiskOK
 	}
-	return w.DiskFn(DiskCall{G: g, Path: f.path, Write: write, Off: off, Len: n})
+	c := DiskCall{G: g, Path: f.path, Write: write, Off: off, Len: n}
+	v := w.DiskFn(c)
+	if v == DiskSlow {
+		d := 35 * time.Second
+		if w.DiskSlowFor != nil {
+			d = w.DiskSlowFor(c)
+		}
+		Sleep(d)
+		return DiskOK
+	}
+	return v
 }
 
 func (f *faultDisk) ReadAt(p []byte, off int64) (int, error) {
